@@ -17,6 +17,7 @@ mod c12;
 mod c14;
 mod c15;
 mod c16;
+mod c17;
 mod common;
 mod genpipe;
 
@@ -96,6 +97,7 @@ fn main() {
         "C14" => c14::run(&ctx),
         "C15" => c15::run(&ctx),
         "C16" => c16::run(&ctx),
+        "C17" => c17::run(&ctx),
         _ => {
             eprintln!("unknown check {}", id);
             2
